@@ -928,7 +928,7 @@ void mmd_export_token_html(DString * out, const char * source, token * t, scratc
 			print_const("<table");
 
 			// Are we followed by a caption?
-			if (table_has_caption(t)) {
+			if (table_has_caption(t, source)) {
 				temp_token = t->next->child;
 
 				if (temp_token->next &&
